@@ -281,6 +281,15 @@ type DumpOpts struct {
 	PlainNames bool // only ASCII symbol/file shapes that survive the console/HTML renderers unchanged
 }
 
+// elideOneIn: pooled dumps (aggregation, rendering) see elided stacks more often, so that
+// buckets whose members all carry the marker but differ elsewhere are common.
+func elideOneIn(o DumpOpts) int {
+	if o.PoolHeavy {
+		return 4
+	}
+	return 10
+}
+
 func genPools(t *rapid.T, o DumpOpts) *pools {
 	p := &pools{freeInacc: o.FreeInacc}
 	nv := rapid.IntRange(2, 8).Draw(t, "poolVals")
@@ -403,7 +412,7 @@ func genG(t *rapid.T, p *pools, o DumpOpts, id int) GM {
 		}
 		g.Frames = cloneFrames(g.Frames[:100])
 		g.ElideAt, g.ElideN = 50, rapid.IntRange(1, 5000).Draw(t, "elided")
-	} else if len(g.Frames) > 0 && oneIn(t, 10, "elide") {
+	} else if len(g.Frames) > 0 && oneIn(t, elideOneIn(o), "elide") {
 		if oneIn(t, 4, "elideOld") {
 			g.ElideOld = true
 			g.ElideAt = len(g.Frames)
